@@ -1,38 +1,143 @@
-//! L1 — model-free invariants over the instrumentation trace of one call (DESIGN §4.5). They
-//! relate what the generated program *did* to what the shell *saw* and need no reference semantics.
+//! L1 — model-free invariants over the instrumentation trace (DESIGN §4.5). They relate what the
+//! generated program *did* (recorded by the wrappers around its futures and by the test app's
+//! `update`) to what the shell *did and saw*; no reference semantics is involved, so a failure
+//! here can never be blamed on the reference runtime.
+//!
+//! State is kept across the calls of one case (one `L1` per case).
 
-use crate::app::UniCtx;
+use crate::dsl::{Event, Out, REQ};
 use crate::shell::Obs;
-use crate::trace::Tr;
-use std::collections::BTreeSet;
+use crate::trace::{Path, Tr};
+use std::collections::{BTreeMap, BTreeSet};
 
-pub fn check_call(trace: &[Tr], obs: &Obs, _uni: &UniCtx) -> Result<(), String> {
-    // W (window): every traced leaf first polled during this call has its effect in the call's
-    // return value, and nothing is returned twice.
-    let mut returned = BTreeSet::new();
-    for op in &obs.effects {
-        if !returned.insert(op.path.clone()) {
-            return Err(format!("effect {:?} was returned twice by one call", op.path));
-        }
+#[derive(Default)]
+pub struct L1 {
+    /// every request path ever returned to the shell
+    returned_ever: BTreeSet<Path>,
+    /// resolutions the core accepted, per request, in order
+    accepted: BTreeMap<Path, Vec<u32>>,
+    /// values the program received, per traced leaf, in order
+    delivered: BTreeMap<Path, Vec<u32>>,
+    /// kind of every returned request
+    kind: BTreeMap<Path, u8>,
+    /// leaves created by the interpreter (their polls and deliveries are visible in the trace)
+    pub traced_leaves: BTreeSet<Path>,
+    /// next sequence number expected from each emitter
+    next_seq: BTreeMap<Vec<u16>, u16>,
+    /// every event `update` was given, in order
+    pub updates: Vec<Event>,
+}
+
+impl L1 {
+    /// `Got`/`Item` of this call as (path, nonce)
+    pub fn deliveries_of(trace: &[Tr]) -> Vec<(Path, u32)> {
+        trace.iter().filter_map(|t| match t { Tr::Got(p, n, _) | Tr::Item(p, n, _) => Some((p.clone(), *n)), _ => None }).collect()
     }
-    for t in trace {
-        if let Tr::FirstPoll(p) = t {
-            if !returned.contains(p) {
-                return Err(format!("request {p:?} was issued by a task during this call but is not in the call's return value"));
+
+    /// Check one call; returns every clause that failed (in order).
+    pub fn check_call(&mut self, trace: &[Tr], obs: &Obs) -> Vec<String> {
+        let mut fails = vec![];
+        // ---- W (window): nothing is returned twice, neither by one call nor over the history;
+        // every traced leaf first polled during this call has its effect in this call's return value.
+        let mut returned = BTreeSet::new();
+        for op in &obs.effects {
+            if !returned.insert(op.path.clone()) {
+                fails.push(format!("effect {:?} was returned twice by one call", op.path));
+            } else if self.returned_ever.contains(&op.path) {
+                fails.push(format!("effect {:?} was returned twice by one call or by two calls: it had already been handed to the shell by an earlier call", op.path));
             }
+            self.kind.insert(op.path.clone(), op.kind);
         }
-    }
-    // D (delivery): a value delivered during this call was resolved during this call or earlier
-    // (checked against the stamped resolutions of this window only: at most one resolution per call)
-    let resolved: Vec<(&Vec<u16>, u32)> = trace.iter().filter_map(|t| if let Tr::Resolve(p, o) = t { Some((p, o.nonce)) } else { None }).collect();
-    for t in trace {
-        if let Tr::Got(p, n) = t {
-            if let Some((rp, rn)) = resolved.first() {
-                if *rp == p && rn != n {
-                    return Err(format!("request {p:?} was resolved with nonce {rn} but the task received {n}"));
+        for t in trace {
+            if let Tr::FirstPoll(p) = t {
+                self.traced_leaves.insert(p.clone());
+                if !returned.contains(p) {
+                    fails.push(format!("request {p:?} was issued by a task during this call but is not in the call's return value"));
                 }
             }
         }
+        self.returned_ever.extend(returned);
+
+        // ---- D (delivery): what a task receives is what the shell passed to *that* request:
+        // accepted, unchanged, at most once (one-shot) / in order without gaps or repeats (stream).
+        for t in trace {
+            if let Tr::Resolve(p, o) = t {
+                if obs.resolve_ok == Some(true) {
+                    self.accepted.entry(p.clone()).or_default().push(o.nonce);
+                }
+            }
+        }
+        for t in trace {
+            let (p, n, digest, what) = match t {
+                Tr::Got(p, n, d) => (p, *n, *d, "response"),
+                Tr::Item(p, n, d) => (p, *n, *d, "stream item"),
+                _ => continue,
+            };
+            let got = self.delivered.entry(p.clone()).or_default();
+            let acc = self.accepted.get(p).map(|v| v.as_slice()).unwrap_or(&[]);
+            match acc.get(got.len()) {
+                Some(want) if *want == n => {}
+                Some(want) => {
+                    if acc.contains(&n) {
+                        fails.push(format!("request {p:?}: the shell's resolutions were {acc:?} but the task received {what} {n} out of order or twice (after {got:?}; next expected {want})"));
+                    } else {
+                        fails.push(format!("request {p:?} was resolved with {acc:?} but the task received {what} {n}, which the shell never passed to this request"));
+                    }
+                }
+                None => {
+                    fails.push(format!("request {p:?} was resolved with {acc:?} but the task received {what} {n} after {got:?} (more values than accepted resolutions)"));
+                }
+            }
+            if self.kind.get(p) == Some(&REQ) && !got.is_empty() {
+                fails.push(format!("one-shot request {p:?}: a second value ({n}) was delivered but the task received it after {got:?}"));
+            }
+            got.push(n);
+            if digest != Out::new(n).digest() {
+                fails.push(format!("request {p:?} was resolved with nonce {n} but the task received different payload bytes (digest {digest:#x})"));
+            }
+        }
+
+        // ---- E (events): every event reaches `update` exactly once, per emitter in emission order,
+        // and everything emitted during this call was applied before it returned.
+        let mut applied_now: BTreeSet<Vec<u16>> = BTreeSet::new();
+        for t in trace {
+            if let Tr::Update(e) = t {
+                self.updates.push(e.clone());
+                if let Event::Tag { from, .. } = e.innermost() {
+                    applied_now.insert(from.clone());
+                    if let Some((emitter, seq)) = e.emitter() {
+                        let next = self.next_seq.entry(emitter.to_vec()).or_insert(0);
+                        if seq < *next {
+                            fails.push(format!("update applied {e:?}, which is not pending (it had already been applied: event {seq} of emitter {emitter:?} twice)"));
+                        } else if seq > *next {
+                            fails.push(format!("update applied {e:?} before an earlier event of the same emitter (event {} of {emitter:?} has not been applied)", *next));
+                            *next = seq + 1;
+                        } else {
+                            *next = seq + 1;
+                        }
+                    }
+                }
+            }
+        }
+        for t in trace {
+            if let Tr::Emit(from, _) = t {
+                if !applied_now.contains(from) {
+                    fails.push(format!("events were emitted but not applied when the call returned: {from:?} (emitter + sequence number)"));
+                }
+            }
+        }
+        fails
     }
-    Ok(())
+
+    /// the view after a call is the log of exactly the events `update` was given, in that order
+    pub fn check_view(&self, view: &[Event]) -> Option<String> {
+        if view != self.updates.as_slice() {
+            return Some(format!("the view shows {} events {:?}, update was given {} events {:?}", view.len(), tail(view), self.updates.len(), tail(&self.updates)));
+        }
+        None
+    }
+}
+
+fn tail(v: &[Event]) -> &[Event] {
+    &v[v.len().saturating_sub(4)..]
 }
